@@ -232,6 +232,24 @@ pub fn exercise_all(data: &[u8], ring: &Ring) -> Vec<String> {
             let _ = s.verify(&k.to_public_key(), b"content");
         }
     }
+    // the many-iterators (keyrings, signature files): whatever is in the stream
+    {
+        use pgp::composed::PublicOrSecret;
+        if let Ok(it) = PublicOrSecret::from_bytes_many(data) {
+            for k in it.take(5000).flatten() {
+                let _ = k.to_bytes();
+            }
+        }
+        if let Ok(it) = SignedPublicKey::from_bytes_many(data) {
+            let _ = it.take(5000).count();
+        }
+        if let Ok(it) = SignedSecretKey::from_bytes_many(data) {
+            let _ = it.take(5000).count();
+        }
+        if let Ok(it) = DetachedSignature::from_bytes_many(data) {
+            let _ = it.take(5000).count();
+        }
+    }
     // armored
     {
         let mut d = Dearmor::new(data);
@@ -591,6 +609,25 @@ pub fn hostile_streams(ctx: &Ctx, rng: &mut ChaCha8Rng) -> Vec<(String, Vec<u8>,
         s.extend(literal(b"x"));
         v.push(("all".into(), s.clone(), format!("2e4 empty {what} packets + literal")));
         v.push(("inner1".into(), s, format!("SEIPDv1[2e4 empty {what} packets + literal]")));
+    }
+    // long runs of well-formed packets that do not belong in a keyring, alone and between two keys
+    {
+        let mut krng = ChaCha8Rng::seed_from_u64(4242);
+        let key_bytes = crate::keys::ed25519_x25519(&mut krng, pgp::types::KeyVersion::V4).to_public_key().to_bytes().unwrap_or_default();
+        for (what, stray) in [("marker", vec![0xCAu8, 3, b'P', b'G', b'P']), ("user id", vec![0xCD, 1, b'x']), ("literal", vec![0xCB, 7, b'b', 0, 0, 0, 0, 0, b'x']), ("padding", vec![0xD5, 2, 0, 0])] {
+            for n in [100usize, 3000, 100_000] {
+                let mut s = Vec::new();
+                for _ in 0..n {
+                    s.extend_from_slice(&stray);
+                }
+                v.push(("all".into(), s.clone(), format!("{n} {what} packets")));
+                v.push(("all@2m".into(), s.clone(), format!("{n} {what} packets on a 2 MiB thread")));
+                let mut k = key_bytes.clone();
+                k.extend_from_slice(&s);
+                k.extend_from_slice(&key_bytes);
+                v.push(("all".into(), k, format!("key + {n} {what} packets + key")));
+            }
+        }
     }
     // deeply nested embedded signatures
     let depths: Vec<usize> = if ctx.thorough() { vec![1, 10, 100, 1000, 3000, 5000, 20_000, 100_000] } else { vec![1, 100, 1000, 5000, 30_000] };
